@@ -149,34 +149,89 @@ def outcome(w, thunk):
     return "ok", res
 
 
-def do_op(w, o):
-    CLK.now = o["now"]
+def plan_op(w, o):
+    """-> (thunk that issues the call, post(st, res) -> (st, out))"""
     h = (w.rw if o["via"] == "rw" else w.ro)[o["d"]]
     none = w.abstract_node(None)
     if o["op"] == "add":
-        st, res = outcome(w, lambda: h.set_node(NAMES[o["name"]], w.node(o["child"]), md_concrete(o["md"]), overwrite=OW[o["ow"]]))
-        return st, none
+        return (lambda: h.set_node(NAMES[o["name"]], w.node(o["child"]), md_concrete(o["md"]), overwrite=OW[o["ow"]]),
+                lambda st, res: (st, none))
     if o["op"] == "addmany":
         entries = {}
         for it in o["items"]:
             entries[NAMES[it["name"]]] = (w.node(it["child"]), md_concrete(it["md"]))
-        st, res = outcome(w, lambda: h.set_nodes(entries, overwrite=OW[o["ow"]]))
-        return st, none
+        return (lambda: h.set_nodes(entries, overwrite=OW[o["ow"]])), (lambda st, res: (st, none))
     if o["op"] == "delete":
-        st, res = outcome(w, lambda: h.delete(NAMES[o["name"]], must_exist=o["must_exist"], must_be_directory=o["must_be_dir"],
-                                              must_be_file=o["must_be_file"]))
-        return st, (w.abstract_node(res) if st == "ok" else none)
+        return (lambda: h.delete(NAMES[o["name"]], must_exist=o["must_exist"], must_be_directory=o["must_be_dir"],
+                                 must_be_file=o["must_be_file"]),
+                lambda st, res: (st, (w.abstract_node(res) if st == "ok" else none)))
     if o["op"] == "setmd":
-        st, res = outcome(w, lambda: h.set_metadata_for(NAMES[o["name"]], md_concrete(o["md"])))
-        return st, none
+        return (lambda: h.set_metadata_for(NAMES[o["name"]], md_concrete(o["md"]))), (lambda st, res: (st, none))
     if o["op"] == "move":
         h2 = (w.rw if o["dvia"] == "rw" else w.ro)[o["dd"]]
         newname = NAMES[o["newname"]] if o["newname"] else None
-        st, res = outcome(w, lambda: h.move_child_to(NAMES[o["name"]], h2, newname, overwrite=OW[o["ow"]]))
-        if st == "ok" and isinstance(res, str):
-            return ("redundant" if res == "redundant rename/relink" else "?" + res), none
-        return st, (w.abstract_node(res) if st == "ok" else none)
+
+        def post(st, res):
+            if st == "ok" and isinstance(res, str):
+                return ("redundant" if res == "redundant rename/relink" else "?" + res), none
+            return st, (w.abstract_node(res) if st == "ok" else none)
+        return (lambda: h.move_child_to(NAMES[o["name"]], h2, newname, overwrite=OW[o["ow"]])), post
     raise ValueError(o["op"])
+
+
+def do_op(w, o):
+    CLK.now = o["now"]
+    thunk, post = plan_op(w, o)
+    st, res = outcome(w, thunk)
+    return post(st, res)
+
+
+def do_burst(w, ops):
+    """the calls are issued back to back on the same node objects, behind a listing that is still in flight, and only then does
+    the grid run: one client's operations on a directory take effect in the order in which they were requested"""
+    from twisted.python.failure import Failure
+    CLK.now = ops[0]["now"]
+    try:
+        (w.rw if ops[0]["via"] == "rw" else w.ro)[ops[0]["d"]].list().addErrback(lambda f: None)
+    except Exception:
+        pass
+    slots = []
+    for o in ops:
+        thunk, post = plan_op(w, o)
+        box = []
+        try:
+            thunk().addBoth(box.append)
+        except Exception as ex:
+            box.append(Failure(ex))
+        slots.append((box, post))
+    # a listing requested after the edits (and before anything has run): it must show all of them
+    lbox = []
+    try:
+        (w.rw if ops[0]["via"] == "rw" else w.ro)[ops[0]["d"]].list().addBoth(lbox.append)
+    except Exception as ex:
+        lbox.append(Failure(ex))
+    for _ in range(200000):
+        if all(b for b, _ in slots) and lbox:
+            break
+        if not w.g.step():
+            break
+    w.burst_listing = None
+    if lbox and not isinstance(lbox[0], Failure):
+        o_ = {}
+        for name, (child, md) in lbox[0].items():
+            m, hasT, crt, mot = md_abstract(md)
+            o_[NAME_BACK.get(name, "?" + name.encode("utf-8").hex())] = {
+                "child": w.abstract_node(child), "md": m, "hasT": hasT, "crt": crt, "mot": mot}
+        w.burst_listing = o_
+    out = []
+    for box, post in slots:
+        if not box:
+            out.append(("never_answered", w.abstract_node(None)))
+        elif isinstance(box[0], Failure):
+            out.append(post(box[0].type.__name__, None))
+        else:
+            out.append(post("ok", box[0]))
+    return out
 
 
 # ---------------------------------------------------------------- C20 scenario generation (inputs only)
@@ -271,9 +326,48 @@ def run_c20(args, inp, rng):
             if obs != init:
                 raise RuntimeError("initial contents not established: %r vs %r" % (obs, init))
             events = []
-            for o in sc["ops"]:
+            bursty = gen is not None and si % 3 == 2
+            brng = random.Random("burst-%d-%d" % (args.seed, si))
+            todo = list(sc["ops"])
+            while todo:
+                o = todo.pop(0)
                 if o is None:
                     o = gen.op(obs)
+                if bursty and todo and todo[0] is None and brng.random() < 0.5:
+                    # a burst: 2..3 calls requested back to back (all chosen from the same listing, same clock reading)
+                    # (single-step edits of ONE directory: a rename / relink is several queued steps, between which calls
+                    # requested later legitimately run)
+                    ops = [o] if o["op"] != "move" else []
+                    want = brng.choice([2, 2, 3])
+                    tries = 0
+                    while ops and todo and todo[0] is None and len(ops) < want and tries < 40:
+                        tries += 1
+                        o2 = gen.op(obs)
+                        if o2["op"] == "move" or o2["d"] != o["d"] or o2["via"] != o["via"]:
+                            continue
+                        todo.pop(0)
+                        o2["now"] = o["now"]
+                        ops.append(o2)
+                    if len(ops) < 2:
+                        st, out = do_op(w, o)
+                        obs = w.observe()
+                        e = dict(o)
+                        e["st"], e["out"], e["obs"] = st, out, obs
+                        events.append(e)
+                        continue
+                    res = do_burst(w, ops)
+                    obs = w.observe()
+                    if w.burst_listing is not None:
+                        obs_burst = dict(obs)
+                        obs_burst[o["d"]] = w.burst_listing
+                    else:
+                        obs_burst = {"listing_failed": {}}
+                    for j, (o2, (st, out)) in enumerate(zip(ops, res)):
+                        e = dict(o2)
+                        last = j == len(ops) - 1
+                        e["st"], e["out"], e["obs"], e["burst"] = st, out, (obs_burst if last else {}), ("last" if last else "mid")
+                        events.append(e)
+                    continue
                 st, out = do_op(w, o)
                 obs = w.observe()
                 e = dict(o)
